@@ -163,4 +163,43 @@ theorem siv_roundtrip_source (v : Variant) (st : St)
   rw [if_pos rfl] at hr2
   exact ⟨f1, st1, f2, st2, blkQ, l, hr1, hr2, hQ2, hQ2b, hQ2d⟩
 
+open TJ.Props.C02Gen TJ.Props.C09Gen TJ.Props.C01Gen in
+/-- **C08 (accept iff the synthetic IV matches) and C04 on the regenerated source**: `tinyjambu_*_siv_decrypt` of ANY packet of at least 8 bytes either returns 0 — exactly when the packet is the encryption of the
+    recovered plaintext, which is then what the output buffer holds — or returns -1 and leaves the output buffer zeroed over the whole plaintext length
+    (`siv_decrypt_source_is_model`, TJ.Props.C08.accept_iff_packet, TJ.Props.C04.siv_reject_zero_lib). -/
+theorem siv_decrypt_source_verdict (v : Variant) (st : St)
+    (bo baseo oo : Nat) (XO : Array LByte) (bl basel ol : Nat) (XL : Array LByte) (bc basec coff : Nat) (XC : Array LByte) (ba basea aoff : Nat) (XA : Array LByte)
+    (bn basen noff : Nat) (XN : Array LByte) (bk basek koff : Nat) (XK : Array LByte) (body tag2 ad nonce key : Bytes)
+    (hO : st.mem[bo]? = some ⟨XO, baseo⟩) (hltO : baseo + XO.size < ptrBase) (hroom : oo + body.length ≤ XO.size)
+    (hL : st.mem[bl]? = some ⟨XL, basel⟩) (hltL : basel + XL.size < ptrBase) (hinL : ol + 8 ≤ XL.size) (halL : (basel + ol) % 8 = 0)
+    (bC : Buf st.mem bc basec coff XC (body ++ tag2)) (bA : Buf st.mem ba basea aoff XA ad) (bN : Buf st.mem bn basen noff XN nonce) (bK : Buf st.mem bk basek koff XK key)
+    (htl : tag2.length = 8) (hnl : nonce.length = 12) (hkl : key.length = 4 * v.nk)
+    (hsep : bl ≠ bo ∧ bl ≠ bc ∧ bl ≠ ba ∧ bl ≠ bn ∧ bl ≠ bk) (hbon : bo ≠ bn) (hboa : bo ≠ ba) (hdisj : bc ≠ bo ∨ (bc = bo ∧ coff = oo)) (hsz : st.mem.size + 2 < 2 ^ 30) :
+    ∃ fuel st' blkO l rv, callFun prog fuel (sivDecIdx v) true
+        [(mkPtr bo (baseo + oo), .pub), (mkPtr bl (basel + ol), .pub), (mkPtr bc (basec + coff), .pub), (body.length + 8, .pub),
+         (mkPtr ba (basea + aoff), .pub), (ad.length, .pub), (mkPtr bn (basen + noff), .pub), (mkPtr bk (basek + koff), .pub)] st =
+        .ok .normal #[(rv, l), (mkPtr bo (baseo + oo), .pub), (mkPtr bl (basel + ol), .pub), (mkPtr bc (basec + coff), .pub), (body.length + 8, .pub),
+         (mkPtr ba (basea + aoff), .pub), (ad.length, .pub), (mkPtr bn (basen + noff), .pub), (mkPtr bk (basek + koff), .pub)] st' ∧
+      st'.mem[bo]? = some blkO ∧ blkO.base = baseo ∧
+      ((rv = 0 ∧ sivEncrypt v key nonce ad (sivCandidate (permC v (loadKey v key)) v.pk nonce (body ++ tag2)) = body ++ tag2 ∧
+          BytesV blkO.bytes oo (sivCandidate (permC v (loadKey v key)) v.pk nonce (body ++ tag2))) ∨
+       (rv = 4294967295 ∧ sivEncrypt v key nonce ad (sivCandidate (permC v (loadKey v key)) v.pk nonce (body ++ tag2)) ≠ body ++ tag2 ∧
+          BytesV blkO.bytes oo (List.replicate body.length 0))) := by
+  obtain ⟨f, st', blkO, l, buf, hr, _, _, _, _, hbuf, hQ, hQb, _, hQd, _⟩ := siv_decrypt_source_is_model v st bo baseo oo XO bl basel ol XL bc basec coff XC ba basea aoff XA
+    bn basen noff XN bk basek koff XK body tag2 ad nonce key hO hltO hroom hL hltL hinL halL bC bA bN bK htl hnl hkl hsep hbon hboa hdisj hsz
+  have h8 : 8 ≤ (body ++ tag2).length := by rw [List.length_append, htl]; omega
+  have hlen : (body ++ tag2).length - 8 = body.length := by rw [List.length_append, htl]; omega
+  by_cases hacc : (sivDecrypt v key nonce ad (body ++ tag2)).ret = 0
+  · have hpk := (TJ.Props.C08.accept_iff_packet (permC v (loadKey v key)) v.pk nonce ad (body ++ tag2) h8).mp hacc
+    have hb := TJ.Props.C04.siv_accept_plaintext (permC v (loadKey v key)) v.pk nonce ad (body ++ tag2) h8 hacc
+    rw [show sivDecryptWith (permC v (loadKey v key)) v.pk nonce ad (body ++ tag2) = sivDecrypt v key nonce ad (body ++ tag2) from rfl, hbuf] at hb
+    rw [if_pos hacc] at hr
+    exact ⟨f, st', blkO, l, 0, hr, hQ, hQb, Or.inl ⟨rfl, hpk, by rw [← Option.some.inj hb]; exact hQd⟩⟩
+  · have hpk : ¬ sivEncrypt v key nonce ad (sivCandidate (permC v (loadKey v key)) v.pk nonce (body ++ tag2)) = body ++ tag2 :=
+      fun h => hacc ((TJ.Props.C08.accept_iff_packet (permC v (loadKey v key)) v.pk nonce ad (body ++ tag2) h8).mpr h)
+    have hb := TJ.Props.C04.siv_reject_zero_lib v key nonce ad (body ++ tag2) h8 hacc
+    rw [hbuf, hlen] at hb
+    rw [if_neg hacc] at hr
+    exact ⟨f, st', blkO, l, 4294967295, hr, hQ, hQb, Or.inr ⟨rfl, hpk, by rw [← Option.some.inj hb]; exact hQd⟩⟩
+
 end TJ.Props.C08Gen
